@@ -769,6 +769,10 @@ def hErsReconcile (inp out : Json) : Except String Findings := do
       nodes.any (fun n => n.name == c.node && fit rs.template n) &&
       ownPods.all (fun p => p.nodeOf != some c.node || p.phase == "Unknown" || p.phase == "Failed")))
   let fs := spec fs "C01.api-unknown-untouched" (ownPods.all (fun p => p.phase != "Unknown" || !o.deleted.contains p.name))
+  -- C01 in the store (scenario steps): no node gains a second live daemon pod during this sync
+  let dupB : List String := (inp.getObjValAs? (List String) "doubledBefore").toOption.getD []
+  let dupA : List String := (inp.getObjValAs? (List String) "doubledAfter").toOption.getD []
+  let fs := spec fs "C01.store-one-pod-per-node" (dupA.all (fun n => dupB.contains n))
   -- C04: confinement
   let fs := spec fs "C04.canary-creates-in-list" (role != "canary" || o.creates.all (fun c => canaryNodes.contains c.node))
   let fs := spec fs "C04.active-avoids-list" (role != "active" ||
